@@ -58,6 +58,21 @@ NOTES = {
  "C19-e": "missed at first; caught after a 6 MiB response written and closed at once is compared between TLS and plain TCP",
  "C20-e": "missed at first; caught after configurations that restrict who may connect (client certificate / TLS 1.3 only) with a well-formed client that does not meet them",
  "C06-b": "caught on the first run, thanks to the refusal styles (silent / own fragment without close) added to model, spec and harness beforehand",
+ "C03-f": "missed at first (the several-MiB response through a TLS listener ran under C19 / C20 only); caught after it became part of C03's own case stream",
+ "C04-f": "first run: `no-failing-input-found` (only mutated heads happened to carry the header); after refused heads with Expect / Connection / Transfer-Encoding headers were added: concrete replay",
+ "C06-f": "missed at first (no request ever arrived while a middleware was judging another one); caught after family `srvi` lets the next scheduled requests of other connections in while a middleware is consulted (nested, as a local event loop would) and gained round-robin schedules",
+ "C07-f": "replacing the document root between the requests of one handler (family `fsm`, statement `chk_C07m`) was added after reading the agent's summary, before the first run",
+ "C08-f": "descriptor accounting per request and 70-request histories under a lowered RLIMIT_NOFILE were added after reading the agent's summary, before the first run",
+ "C09-f": "lossy conversions of non-ASCII passwords ('?', low byte, accent dropped, other case) were added after reading the agent's summary, before the first run",
+ "C10-f": "missed at first; caught after family `life` gained clients that send 70..400 KB after their complete request and then go away while the server side has not answered",
+ "C11-f": "missed at first (the 40 sampled C14 cases did not include a block-size change); caught after C11 gained copier API histories (setBufferSize between blocks, stop, restart)",
+ "C12-f": "bodies that no Content-Length announces were added after reading the agent's summary, before the first run (the generator used to drop them)",
+ "C13-f": "upstream header values with runs of blanks and tabs were added after reading the agent's summary, before the first run",
+ "C14-f": "first run: `no-failing-input-found`; after the statement for sequential sources demands completion exactly once and, for a failed open, one error and nothing more: concrete replay",
+ "C17-f": "integer / boolean / null data values and a repeated setData() with loosely equal values were added after reading the agent's summary, before the first run",
+ "C18-f": "family `socklate` (the listener subscribes after part of the response was acknowledged) was added after reading the agent's summary, before the first run",
+ "C19-f": "refused heads followed by a second TLS record or several KiB in one write were added after reading the agent's summary, before the first run",
+ "C20-f": "missed at first (QSslSocket clients cannot send a close_notify and keep the connection open); caught after family `tlsraw`: a client that drives OpenSSL itself",
 }
 rows = []
 for d in sorted(glob.glob(os.path.join(ROOT, "seeded", "*", ""))):
